@@ -35,6 +35,7 @@ Definition reply_eqb (a b : reply) : bool :=
   | RNone, RNone | ROk, ROk | RNoSupport, RNoSupport | RUnknown, RUnknown => true
   | RStat x, RStat y | RBadState x, RBadState y => nstate_eqb x y
   | RNodes x l, RNodes y m => nstate_eqb x y && list_eqb svc_eqb l m
+  | RDir l, RDir m => list_eqb (pair_eqb Z.eqb nstate_eqb) l m
   | _, _ => false
   end.
 
